@@ -16,6 +16,8 @@ STD = P.get("std")
 REF = P.get("ref")
 SPINE = P.get("spine", "obj2")
 MAXN = P.get("maxn", 2)
+for _prior in P.get("prior", []):  # queries this environment compiled earlier (history between compilations)
+    ENV.compile(_prior)
 C_EXT = ENV.compile(EXT)
 C_STD = ENV.compile(STD) if STD else None
 _LT = {"leaf": Leaf, "int": int, "intstr": Union[int, str], "nbi": Union[None, bool, int]}
